@@ -25,7 +25,12 @@ impl Validator for BracketHelper {
         if self.script {
             // scripted verdicts, decided by what the text contains (same table as the tty child)
             let input = ctx.input();
-            return if input.contains("##") {
+            return if input.contains("#@") {
+                Err(rustyline::error::ReadlineError::Io(std::io::Error::new(
+                    std::io::ErrorKind::Interrupted,
+                    "scripted validator error (interrupted)",
+                )))
+            } else if input.contains("##") {
                 Err(rustyline::error::ReadlineError::Io(std::io::Error::new(
                     std::io::ErrorKind::Other,
                     "scripted validator error",
